@@ -597,39 +597,58 @@ pub fn c05_body(case: &HCase, obs: &mut Obs) -> Result<(), String> {
     let mut all_roots: Vec<(Ty, u32)> = vec![];
     let mut repeat_after_other = false;
     let mut distinct_regs = 0usize;
-    let targets: Vec<Target> = case
+    // groups of targets: one group per operation; a group of several goes through register_types
+    let groups: Vec<Vec<Target>> = case
         .ops
         .iter()
-        .flat_map(|o| match o {
-            HOp::Register(t) => vec![t.clone()],
-            HOp::RegisterTypes(ts) => ts.clone(),
-            _ => vec![],
+        .filter_map(|o| match o {
+            HOp::Register(t) => Some(vec![t.clone()]),
+            HOp::RegisterTypes(ts) if !ts.is_empty() => Some(ts.clone()),
+            _ => None,
         })
         .collect();
-    for t in &targets {
+    let targets: Vec<Target> = groups.iter().flatten().cloned().collect();
+    for group in &groups {
         let before = snapshot(&reg);
-        let id = reg.register_type(&meta_of(t)).id;
-        let after = snapshot(&reg);
-        let idn = ident(&ty_of(t));
-        // (i) present already (directly or as a sub-type) => same id, registry unchanged
-        let present_before: Option<u32> = {
-            // identity known from an earlier walk of everything registered so far
-            seen.get(&idn).copied()
-        };
-        if let Some(prev) = present_before {
-            if prev != id {
-                return Err(format!("[sig:identity-split] re-registering {idn:?} returned {id}, it already had id {prev}"));
-            }
-            if before != after {
-                return Err(format!("registering the already present {idn:?} changed the registry ({} -> {} entries)", before.len(), after.len()));
-            }
-            if distinct_regs >= 2 {
-                repeat_after_other = true;
-            }
+        let ids: Vec<u32> = if group.len() == 1 {
+            vec![reg.register_type(&meta_of(&group[0])).id]
         } else {
-            distinct_regs += 1;
+            obs.class("op/register_types");
+            let r = reg.register_types(group.iter().map(meta_of).collect::<Vec<_>>());
+            if r.len() != group.len() {
+                return Err(format!("register_types returned {} ids for {} types", r.len(), group.len()));
+            }
+            r.into_iter().map(|s| s.id).collect()
+        };
+        let after = snapshot(&reg);
+        // (i) present already (directly or as a sub-type) => same id; all present => registry unchanged
+        let mut all_present = true;
+        let mut in_call: HashMap<Ident, u32> = HashMap::new();
+        for (t, id) in group.iter().zip(ids.iter()) {
+            let idn = ident(&ty_of(t));
+            let prev = seen.get(&idn).copied().or(in_call.get(&idn).copied());
+            match prev {
+                Some(p) => {
+                    if p != *id {
+                        return Err(format!("[sig:identity-split] re-registering {idn:?} returned {id}, it already had id {p}"));
+                    }
+                    if distinct_regs >= 2 {
+                        repeat_after_other = true;
+                    }
+                }
+                None => {
+                    if !seen.contains_key(&idn) {
+                        all_present = false;
+                    }
+                    distinct_regs += 1;
+                }
+            }
+            in_call.insert(idn, *id);
+            all_roots.push((ty_of(t), *id));
         }
-        all_roots.push((ty_of(t), id));
+        if all_present && before != after {
+            return Err(format!("registering only types that are already present changed the registry ({} -> {} entries)", before.len(), after.len()));
+        }
         // refresh identity <-> id from everything reachable (sub-types count as present)
         let (ids, _) = walk_spec(&after, &all_roots, &spec)?;
         // (iii) exactly one entry per distinct identity reachable from what was registered
